@@ -14,4 +14,4 @@ case "$CONFIG" in
   borsh) FEAT=(--features borsh) ;;
   control) FEAT=(--features control) ;;
 esac
-cd "$W" && CARGO_NET_OFFLINE=true CARGO_TARGET_DIR="$HERE/.cache/target-witness" cargo check --offline --lib "${FEAT[@]}" 2>&1
+cd "$W" && CARGO_NET_OFFLINE=true CARGO_TARGET_DIR="$HERE/.cache/target-witness-$(echo "$REPO" | tr "/" "_")" cargo check --offline --lib "${FEAT[@]}" 2>&1
